@@ -134,7 +134,16 @@ def post_initpol(c, q):
 def ret_initpol(c):
     has = c["self"].attrs["problem"].attrs["__has_initial_policy"]
     return vec_array((N, AD), lambda l: INITP(ST(toz3(l[0]))) if has else AC(immediate_greedy(ST(toz3(l[0])))), name="initial_policy")
-contract(f"{PI}._initialize_policy", scenarios=[("problem_policy.", setup_initpol(True)), ("default.", setup_initpol(False))], returns=ret_initpol,
+def pre_initpol(c, q):
+    """without a problem-supplied policy the first policy is extracted from the CURRENT values: they must be zero for it to be the immediate-reward maximiser
+    (the proof's scenario has zero values; as a `requires` the call sites have to establish it)"""
+    s_ = c["self"]
+    if s_.attrs["problem"].attrs.get("__has_initial_policy"): return z3.BoolVal(True)
+    v = s_.attrs.get("values")
+    if not isinstance(v, SArr): return z3.BoolVal(False)
+    x = z3.Int("s!pre"); q.hyps += [x >= 0, x < N]
+    return toz3(v.get((x,))) == 0
+contract(f"{PI}._initialize_policy", scenarios=[("problem_policy.", setup_initpol(True)), ("default.", setup_initpol(False))], returns=ret_initpol, requires=pre_initpol,
     ensures={"first_policy": post_initpol})
 def setup_init_pi(has, reset):
     def setup(I):
